@@ -1,5 +1,6 @@
 import RsMatterVerif.Model.Subs
 import Driver.Util
+import Driver.C13Sys
 /-! Driver for C13: replays subscription-table histories on `Model/Subs` (output compared with the
 real `Subscriptions` table, field by field) and evaluates the property's specification on the
 *implementation's* outputs: a set-based account of what every live subscriber is still owed.
@@ -95,6 +96,8 @@ structure St where
   okv : List String := []
   boots : Nat := 1
   dead : Bool := false
+  /-- `some` while a system-level case (header kind `sys`) is being judged by `Driver.C13Sys` -/
+  sys : Option Driver.C13Sys.St := none
 
 def pathEntry (u : Nat × Nat × Nat) : Entry := { ep := u.1, cl := u.2.1, attr := u.2.2, id := 0 }
 
@@ -388,11 +391,16 @@ def modelStep (m : State) (ws : List String) : Option (State × String) :=
 def step (st : St) (line : String) : St × String :=
   let (op, out) := splitArrow line
   match words op with
+  | "case" :: _ :: "sys" :: hdr => ({ sys := some (Driver.C13Sys.initSt hdr) }, "case")
   | "case" :: _ :: _ :: ns :: hzs :: _ =>
     match ns.toNat?, hzs.toNat? with
     | some n, some hz => ({ m := State.new hz n }, "case")
     | _, _ => ({}, "BAD case header")
   | ws =>
+    if let some s := st.sys then
+      let (s', v) := Driver.C13Sys.step s ws out
+      ({ st with sys := some s' }, v)
+    else
     if st.dead then (st, "ok") else
     if (words out).head? = some "panic" then ({ st with dead := true }, "ORA the implementation panicked") else
     -- the harness has tables for `maxBoots` boots only
